@@ -199,6 +199,9 @@ def findings_of(r, expect, cfg_lines):
                 out.append(("adopt-rejects:" + nm, "adoption with %s: expected errno %s, got: %s" % (nm, exp, l), False))
         elif l.startswith("adopt ") and "rc=0" not in l:
             out.append(("adopt-fails", "adoption with the arguments of the write failed: " + l, False))
+        elif l.startswith("ptrrange OUTSIDE"):
+            fld = l.split(" ")[2]
+            out.append(("not-self-contained:" + fld, "the adopted topology holds a pointer to a block outside the mapping (%s): dangling in a process where the writer's heap / libhwloc is mapped elsewhere" % fld, False))
         elif l.startswith("adopter SIG") or l.startswith("dump SIG"):
             out.append(("adopter-crash", l, False))
         elif l.startswith("obscmp "):
@@ -232,6 +235,9 @@ def findings_of(r, expect, cfg_lines):
         elif l.startswith("image ") and " same" not in l:
             lab = l.split(" ")[1]
             out.append(("image-depends-on-previous-content:" + re.sub(r"^republish\d+", "republish", lab.split(":")[0]), "the image written depends on what the file held before (%s): %s" % (lab, l), False))
+        elif l.startswith("readopt ") and "ptrrange-OUTSIDE" in l:
+            lab = l.split(" ")[1]
+            out.append(("not-self-contained:" + l.split("ptrrange-OUTSIDE:")[1].split(" ")[0], "the image written over previous content (%s) holds a pointer outside the mapping: %s" % (lab, l[:200]), False))
         elif l.startswith("readopt ") and "obscmp same" not in l:
             lab = l.split(" ")[1]
             out.append(("readopt:" + re.sub(r"^republish\d+", "republish", lab.split(":")[0]), "adopting what was written over previous content (%s) fails / differs from the original: %s" % (lab, l[:300]), False))
